@@ -1,7 +1,7 @@
 #!/bin/bash
 # usage: soak.sh <tier> <seed>...   runs every claimed check once per seed; prints exits != 0
 tier=$1; shift
-cd /verif
+cd "$(dirname "$0")/.."   # the tree this script belongs to (/verif, or a snapshot made by vp run)
 ids=$(python3 -c "import json; print(' '.join(c['property_id'] for c in json.load(open('MANIFEST.json'))['checks']))")
 for seed in "$@"; do
   for id in $ids; do
